@@ -273,3 +273,51 @@ pub fn on_fresh_thread<R: Send + 'static>(f: impl FnOnce() -> R + Send + 'static
         .join()
         .unwrap_or_else(|_| crate::common::machinery_error("simulation thread panicked in harness code"))
 }
+
+/// Run `f` in a forked child of this (single-threaded) process and bring its
+/// result back through a pipe. Gives every execution pristine thread-locals,
+/// file descriptors and heap: nothing a subject leaks (sozu's `Rc` cycles
+/// keep listener sockets open, and with SO_REUSEPORT a leaked listener would
+/// steal connections from the next execution) survives the execution.
+/// `Err` carries the wait status when the child did not exit cleanly.
+pub fn isolated<R: serde::Serialize + serde::de::DeserializeOwned>(f: impl FnOnce() -> R) -> Result<R, String> {
+    use std::io::Read;
+    let mut fds = [0 as libc::c_int; 2];
+    if unsafe { libc::pipe(fds.as_mut_ptr()) } != 0 {
+        crate::common::machinery_error("pipe() failed");
+    }
+    let _ = std::io::Write::flush(&mut std::io::stdout());
+    let pid = unsafe { libc::fork() };
+    if pid < 0 {
+        crate::common::machinery_error("fork() failed");
+    }
+    if pid == 0 {
+        // child
+        unsafe { libc::close(fds[0]) };
+        crate::common::thread_init();
+        let r = f();
+        let bytes = serde_json::to_vec(&r).unwrap_or_default();
+        let mut off = 0;
+        while off < bytes.len() {
+            let n = unsafe { libc::write(fds[1], bytes[off..].as_ptr() as *const libc::c_void, bytes.len() - off) };
+            if n <= 0 {
+                break;
+            }
+            off += n as usize;
+        }
+        unsafe { libc::_exit(0) };
+    }
+    unsafe { libc::close(fds[1]) };
+    let mut file: std::fs::File = unsafe { std::os::fd::FromRawFd::from_raw_fd(fds[0]) };
+    let mut buf = vec![];
+    let _ = file.read_to_end(&mut buf);
+    let mut status: libc::c_int = 0;
+    unsafe { libc::waitpid(pid, &mut status, 0) };
+    if libc::WIFEXITED(status) && libc::WEXITSTATUS(status) == 0 {
+        serde_json::from_slice(&buf).map_err(|e| format!("unreadable result from the execution process: {e}"))
+    } else if libc::WIFEXITED(status) {
+        Err(format!("exit:{}", libc::WEXITSTATUS(status)))
+    } else {
+        Err(format!("signal:{}", libc::WTERMSIG(status)))
+    }
+}
